@@ -171,7 +171,7 @@ def _configs(tier, salts):
                                     plan = {"depth": 1, "ns_letters": [1, 2, 3, 0]}
                                 out.append((cfg, plan))
         # the broad option bank with the log switched on, every second budget up to 60
-        if salt == 0 or tier == "thorough":
+        if salt == 0 or (tier == "thorough" and salt == 1):
             plain = cfgs.broad_cfgs(salt=salt, budgets=tuple(range(1, 61, 2 if tier == "quick" else 1)), reg_budgets=(1, 5, 9))
             pairs = [t for t in cfgs.broad_cfgs(salt=salt, budgets=(9, 20, 33, 46, 60) if tier == "quick" else tuple(range(1, 61, 2)),
                                                 exclude=("reg",), overlays=("avg", "soft")) if "+" in t[0]]
